@@ -174,8 +174,8 @@ func runBounded(repo, verif, prop, pkg, test, file, tier string, seed int) bound
 	if tier == "thorough" {
 		timeout = "3000s"
 	}
-	cmd := fmt.Sprintf("ulimit -v 8000000; VERIF_TIER=%s VERIF_SEED=%d GOCACHE=%s go test -overlay %s -vet=off -count=1 -timeout %s -run '^%s$' ./%s 2>&1 | tail -n 200",
-		tier, seed, filepath.Join(tmp, "gocache"), ovFile, timeout, test, pkg)
+	cmd := fmt.Sprintf("ulimit -v 8000000; VERIF_TIER=%s VERIF_SEED=%d GOCACHE=%s go test -v -overlay %s -vet=off -count=1 -timeout %s -run '^%s$' ./%s 2>&1 | tail -n 200",
+		tier, seed, filepath.Join(verif, "work", "gocache"), ovFile, timeout, test, pkg)
 	out, _ := shell(cmd, repo, 3600)
 	res := boundedResult{Output: trunc(out, 8000), Seconds: time.Since(t0).Seconds()}
 	if m := reCases.FindStringSubmatch(out); m != nil {
@@ -202,10 +202,17 @@ func runBounded(repo, verif, prop, pkg, test, file, tier string, seed int) bound
 
 // tryReplay is filled in by realizers (replay_real.go).
 func tryReplay(p *Program, u *Unit, o *Obligation, repo, verif, dir string) *replayResult {
+	var last *replayResult
 	for _, r := range realizers {
 		if rr := r(p, u, o, repo, verif, dir); rr != nil {
-			return rr
+			if rr.Reproduced {
+				return rr
+			}
+			last = rr
 		}
+	}
+	if last != nil {
+		return last
 	}
 	return &replayResult{Attempted: false, Note: "no realizer turns this model into concrete inputs (abstract predicates / uninterpreted values); solver output attached"}
 }
@@ -213,3 +220,51 @@ func tryReplay(p *Program, u *Unit, o *Obligation, repo, verif, dir string) *rep
 type realizer func(p *Program, u *Unit, o *Obligation, repo, verif, dir string) *replayResult
 
 var realizers []realizer
+
+// witnessRealizer: hand-written concrete witnesses for obligations whose models
+// (uninterpreted strings, JSON documents) cannot be realised mechanically.
+// /verif/replay/witnesses/index.json maps an obligation-name substring to a Go
+// test that is injected into the package and fails ("VERIF-REPLAY-FAIL") when
+// the real code violates the clause.
+type witnessEntry struct {
+	Match string `json:"match"`
+	Pkg   string `json:"pkg"`
+	File  string `json:"file"`
+	Test  string `json:"test"`
+}
+
+func init() { realizers = append(realizers, witnessRealizer) }
+
+func witnessRealizer(p *Program, u *Unit, o *Obligation, repo, verif, dir string) *replayResult {
+	data, err := os.ReadFile(filepath.Join(verif, "replay", "witnesses", "index.json"))
+	if err != nil {
+		return nil
+	}
+	var idx []witnessEntry
+	if json.Unmarshal(data, &idx) != nil {
+		return nil
+	}
+	var last *replayResult
+	for _, w := range idx {
+		if !strings.Contains(o.Name, w.Match) {
+			continue
+		}
+		os.MkdirAll(dir, 0o755)
+		ovFile := filepath.Join(dir, sanitizeFile(o.Name+"-"+w.Test)+"_overlay.json")
+		src := filepath.Join(verif, "replay", "witnesses", w.File)
+		ov := map[string]map[string]string{"Replace": {filepath.Join(repo, w.Pkg, "zz_verif_witness_test.go"): src}}
+		ovData, _ := json.Marshal(ov)
+		os.WriteFile(ovFile, ovData, 0o644)
+		cmd := fmt.Sprintf("cd %s && ulimit -v 8000000 && go test -overlay %s -vet=off -count=1 -timeout 60s -run '^%s$' ./%s", repo, ovFile, w.Test, w.Pkg)
+		out, code := shell(cmd, repo, 120)
+		rr := &replayResult{Attempted: true, TestFile: src, Cmd: cmd, Output: trunc(out, 4000), Inputs: map[string]string{"witness": w.Test}}
+		if code != 0 && strings.Contains(out, "VERIF-REPLAY-FAIL") {
+			rr.Reproduced = true
+			rr.Note = "hand-written witness for this obligation fails on the real code"
+			return rr
+		}
+		rr.Note = "witness does not fail on the real code"
+		last = rr
+	}
+	return last
+}
